@@ -674,3 +674,30 @@ def best_common_point(s1, s2, jolt=None):
         if d > bd:
             best, bd = c, d
     return best, bd
+
+
+# ----------------------------------------------------------------------------- running the narrowb worker
+def run_cases(pid, cases, tag="implb", timeout=1500, jit=True, per_worker_min=4, script="narrowb"):
+    """like narrow.run_cases, for harness/impl/narrowb.py (cases may also be dict(scene=...))"""
+    from . import common as cm
+    nwk = min(cm.NCPU, max(1, len(cases) // per_worker_min))
+    chunks = [cases[i::nwk] for i in range(nwk)]
+    res = cm.run_impl_parallel(pid, script, [dict(cases=c) for c in chunks], timeout=timeout, jit=jit, tag=tag)
+    out = [None] * len(cases)
+    for w, (rr, ch) in enumerate(zip(res, chunks)):
+        idxs = list(range(w, len(cases), nwk))
+        if rr["status"] == "ok":
+            for i, x in zip(idxs, rr["result"]["results"]):
+                out[i] = x
+        else:
+            singles = cm.run_impl_parallel(pid, script, [dict(cases=[c]) for c in ch], timeout=240, jit=jit,
+                                           tag=tag + "_iso")
+            for i, s, c in zip(idxs, singles, ch):
+                if s["status"] == "ok":
+                    out[i] = s["result"]["results"][0]
+                else:
+                    ops = c.get("ops") or [dict(fn="self_collision")]
+                    out[i] = [dict(fn=o["fn"], exc=f"PROCESS-{s['status'].upper()}",
+                                   exc_msg=f"rc={s.get('rc')} {s.get('log', '')[-200:]}", support_calls=0)
+                              for o in ops]
+    return out
